@@ -19,6 +19,11 @@ CLAIMED = {
         text="Unbounded theorems: every control point fed to the bounds computation lies in the emitted box widened by the half unit otRound may move an edge; quantised edges are multiples of the step, at most one step outward; no box iff nothing painted; the assertion is unreachable. Model tied to write_font._bounds/_quantize_bounding_rect by evaluating it in Coq on generated paint trees and glyph environments; the implementation's boxes are also judged against placements computed by an independent COLR semantics.",
         ref="DESIGN.md 8 C05",
     ),
+    "C14": dict(
+        technique="machine-checked proof in Coq (lra/lia theorems about ppem, bitmap metrics with Python's half-even round, int8 nudge, strike runs, offsets) + correspondence by vm_compute",
+        text="Unbounded theorems over all integer metrics: ppem within 1/2 of upem*h/em; accepted metrics are representable; the bitmap's vertical centre is within 7/4 px (3/4 without the int8 nudge) of the scaled em-box centre and its edges follow with the explicit size mismatch; horizontal centring within 3/2 px for the repaired code and a machine-checked refutation for the original (finding F8, fixed); strikes are maximal runs of consecutive gids partitioning the sorted glyph list; offsets contiguous with 9+len records. Tied to bitmap_tables by evaluating the model in Coq on the same random metrics/images, and to make_cbdt_table/make_sbix_table by running them on fake fonts with real PNG bytes (image bytes, sizes, run structure).",
+        ref="DESIGN.md 8 C14",
+    ),
     "C15": dict(
         technique="machine-checked proof in Coq (loop-invariant proof of the palette slot loop for every finite colour set) + correspondence by vm_compute",
         text="Unbounded theorem: for every finite list of colours the deque loop of uniq_sort_cpal_colors never indexes an empty deque, ends empty, and returns exactly the specified palette (indexed colours at their index, unindexed ascending in the lowest free slots, black gaps, length max(|set|, maxidx+1) > 0, conflict => error). Tied to the code by evaluating the model in Coq on the property's small universe (exhaustive in the thorough tier) and random large sets; the implementation's outputs are judged by an independent executable spec.",
